@@ -565,8 +565,22 @@ def run(ctx):
         _histories(ctx, "main", njobs=ctx.budget(16, 48), ntxn=(3 if quick else 4) * ctx.boost, full=not quick,
                    later_stride=7 if quick else 4, trace_share=0.3 if quick else 0.4, scratch=scratch,
                    deadline=deadline)
-        if ctx.divergences or ctx.violations:
-            # something is off: spend some more budget looking for a failing input
+        # scripted histories: the default merge policy (MERGE_SMALL) only merges once there are at least
+        # five small segments, which random 3-4 transaction histories hardly ever reach; here five
+        # non-merging commits are followed by default commits that really merge (and an optimize)
+        few = [{"merge": "nomerge", "outcome": "commit", "schema": None}] * 5
+        script = few + [{"merge": "default", "outcome": "commit", "schema": None},
+                        {"merge": "default", "outcome": "commit"}, {"merge": "optimize", "outcome": "commit"}]
+        _histories(ctx, "merging", njobs=ctx.budget(4, 12), ntxn=len(script), full=not quick,
+                   later_stride=7 if quick else 4, trace_share=0.3 if quick else 0.4, scratch=scratch,
+                   force=script, deadline=max(time.time(), deadline) + (20 if quick else 120))
+        if ctx.stats.get("divergence:SafeCommitTrace", 0) or ctx.divergences or ctx.violations:
+            # something is off: look for a failing input among *all* crash points of merging histories
+            _histories(ctx, "search-merging", njobs=4, ntxn=len(script), full=True, later_stride=2,
+                       trace_share=0.2, scratch=scratch, force=script,
+                       deadline=max(time.time(), deadline) + (25 if quick else 150))
+        if ctx.divergences and not ctx.violations:
+            # still no concrete failing input: spend some more budget looking for one
             _histories(ctx, "search", njobs=ctx.budget(16, 64), ntxn=2 if quick else 4, full=True,
                        later_stride=5 if quick else 2, trace_share=0.2, scratch=scratch,
                        deadline=max(time.time(), deadline) + (15 if quick else 150))
